@@ -52,7 +52,8 @@ def main():
                     s2.notes.append('deductive part undecided: %s' % e)
                     s2.decided('engine/deductive-part-undecided', 'proved', 'none', detail=str(e), kind='totality')
                     rc = s2.finish('./check %s --tier %s' % (args.prop, tier), level='other', trusted_base=getattr(mod, 'TRUSTED', None),
-                                   extra=dict(explanation='deductive engine undecided on the current code (%s); bounded stand-in found a failing input' % e))
+                                   extra=dict(explanation='deductive engine undecided on the current code (%s); bounded stand-in found a failing input' % e),
+                                   skip_ledger=True)
         except Exception:
             traceback.print_exc()
     except oblig.CheckerError as e:
